@@ -1202,8 +1202,8 @@ def _rand_view(rng):
 
 def _history_plan(rng, tier, reg_):
     """(first, then) pairs of registry entries. Round 3: every ordered pair of entries that share a public function.
-    Round 4: EVERY public function is the `then` of at least two pairs (quick; eight in the thorough tier): once after the
-    same function on other inputs, once after a function of another family (memoised structuring elements, lazily built
+    Round 4: EVERY public function is the `then` of a pair after the same function on other inputs and (quick tier: every second
+    function, rotating with the seed; thorough: all, four times) of a pair after a function of another family (memoised structuring elements, lazily built
     tables, scratch buffers and caches keyed on shapes are shared across functions of a module)"""
     by_path = {}
     for name in sorted(reg_):
@@ -1216,13 +1216,16 @@ def _history_plan(rng, tier, reg_):
                 for b in names:
                     if a != b:
                         plan += [(a, b)] * dict(quick=1, thorough=4, search=1)[tier]
+    half = rng.randrange(2)        # quick tier: the other-family predecessor for every second function (rotating with the seed)
     for pi, path in enumerate(paths):
         names = by_path[path]
         for k in range(dict(quick=1, thorough=4, search=1)[tier]):
             b = names[k % len(names)]
             plan.append((b, b))
             other = paths[(pi + 1 + rng.randrange(len(paths) - 1)) % len(paths)]
-            plan.append((rng.choice(by_path[other]), b))
+            g = rng.choice(by_path[other])
+            if tier != 'quick' or pi % 2 == half:
+                plan.append((g, b))
     return plan
 
 
